@@ -292,6 +292,34 @@ def stream_update_bound_rec(run, ntables):
 # =====================================================================================
 # (2) refinement: results of the helpers satisfy inst.ok
 # =====================================================================================
+def consistent_pre(rng, ps, tb):
+    """a partial pre-assignment that respects the declared bounds: plain class types only; a parameter bounded
+    by another parameter is requested only together with that parameter, with a subtype of its request"""
+    cands = tb.boxed_builtins() + tb.simple
+    pre = {}
+    for p in ps:
+        if rng.random() < 0.25:
+            continue
+        b = p.bound
+        if b is None:
+            ub = None
+        elif b.is_type_var():
+            if b not in pre:
+                continue
+            ub = pre[b]
+        elif b.has_type_variables():
+            continue
+        else:
+            ub = b
+        pool = [x for x in cands if ub is None or x == ub or inst_lib.refsub_sub(x, ub)]
+        proper = [x for x in pool if ub is not None and x != ub]
+        if proper and b is not None and b.is_type_var() and rng.random() < 0.8:
+            pool = proper
+        if pool:
+            pre[p] = rng.choice(pool)
+    return pre
+
+
 def synthetic_calls(run, ntables, per_con):
     """drive instantiate_type_constructor / instantiate_parameterized_function directly; returns the
     recorded `inst.ok` requests and the Python judge's verdicts"""
@@ -349,6 +377,8 @@ def synthetic_calls(run, ntables, per_con):
                     # pre-assignments: from a previous result (consistent), ground types (maybe not), or none
                     pre = None
                     q = rng.random()
+                    if any(p.bound is not None and p.bound.is_type_var() for p in ps) and rng.random() < 0.3:
+                        q = 0.7           # chains of parameters: more consistent requests at both ends
                     mine = [c for c in out[-40:] if c["con"] is con]
                     if q < 0.12:
                         pre = {p: tb.ground(1, False) for p in ps if rng.random() < 0.4}
@@ -358,6 +388,15 @@ def synthetic_calls(run, ntables, per_con):
                     elif q < 0.65:
                         pre = {p: tp.WildCardType(tb.ground(1, False), rng.choice([tp.Covariant, tp.Contravariant]))
                                for p in ps if rng.random() < 0.4}
+                    elif q < 0.85:
+                        # requests that respect the bounds among themselves, also along chains `Q : P`
+                        # (both ends requested, with different types): every one of them must be kept
+                        pre = consistent_pre(rng, ps, tb)
+                        run.tally("synthetic_consistent_requests",
+                                  "chain-both-ends" if any(p.bound is not None and p.bound.is_type_var() and p.bound in pre
+                                                           and pre[p] != pre[p.bound] for p in pre) else
+                                  "chain-both-ends-equal" if any(p.bound is not None and p.bound.is_type_var()
+                                                                 and p.bound in pre for p in pre) else "no-chain")
                     kw = {}
                     if rng.random() < 0.15:
                         kw["disable_variance"] = True
